@@ -163,6 +163,24 @@ def impl(case):
             shared.rules[key] = dec_state(d)
             make = lambda: shared
             dfta = shared
+            # another grammar of the same process with the same rule table but other start symbols
+            # (the same automaton with other final states), counted first: grammars are keys of caches
+            alt = build(aut)
+            states = sorted({v for v in alt.rules.values()}, key=repr)
+            fin = set(alt.finals)
+            ftypes = {q[0] for q in fin if isinstance(q, tuple)}
+            extra = [q for q in states if q not in fin and isinstance(q, tuple) and q[0] in ftypes]
+            if extra:
+                alt.finals = fin | {extra[0]}              # one more start symbol of the same type
+            elif len(fin) > 1:
+                alt.finals = set(sorted(fin, key=repr)[1:])
+            else:
+                alt.finals = {q for q in states if q not in fin} or set(states[:1])
+            try:
+                UCFG.from_DFTA(alt, clean=False).programs()
+                UCFG.from_DFTA_with_ngrams(alt, 2).programs()
+            except Exception:
+                pass
     ps = [O.prog(w) for w in progs]
     fin = dfta.finals
     out["accept"] = [1 if (lambda q: q is not None and q in fin)(run(dfta, p)) else 0 for p in ps]
